@@ -82,20 +82,48 @@ func sigString(sig *types.Signature) string {
 		if sig.Variadic() && i == sig.Params().Len()-1 {
 			b.WriteString("...")
 		}
-		b.WriteString(types.TypeString(sig.Params().At(i).Type(), q))
+		b.WriteString(types.TypeString(anonType(sig.Params().At(i).Type()), q))
 	}
 	b.WriteString(") (")
 	for i := 0; i < sig.Results().Len(); i++ {
 		if i > 0 {
 			b.WriteString(", ")
 		}
-		b.WriteString(types.TypeString(sig.Results().At(i).Type(), q))
+		b.WriteString(types.TypeString(anonType(sig.Results().At(i).Type()), q))
 	}
 	b.WriteString(")")
 	if tp := sig.TypeParams(); tp != nil {
 		b.WriteString(fmt.Sprintf(" [%d]", tp.Len()))
 	}
 	return b.String()
+}
+
+// anonType drops the parameter and result names of function types nested in t: renaming the
+// parameters of a callback type is not a change of signature.
+func anonType(t types.Type) types.Type {
+	switch x := t.(type) {
+	case *types.Signature:
+		tup := func(tp *types.Tuple) *types.Tuple {
+			vs := make([]*types.Var, tp.Len())
+			for i := range vs {
+				vs[i] = types.NewVar(0, nil, "", anonType(tp.At(i).Type()))
+			}
+			return types.NewTuple(vs...)
+		}
+		if x.TypeParams() != nil || x.Recv() != nil {
+			return t
+		}
+		return types.NewSignatureType(nil, nil, nil, tup(x.Params()), tup(x.Results()), x.Variadic())
+	case *types.Pointer:
+		return types.NewPointer(anonType(x.Elem()))
+	case *types.Slice:
+		return types.NewSlice(anonType(x.Elem()))
+	case *types.Array:
+		return types.NewArray(anonType(x.Elem()), x.Len())
+	case *types.Map:
+		return types.NewMap(anonType(x.Key()), anonType(x.Elem()))
+	}
+	return t
 }
 
 func recvString(sig *types.Signature) string {
@@ -137,7 +165,7 @@ func currentSymbols(p *Program) (*symBaseline, map[string]types.Object) {
 				fm["|"+name] = sigString(sig)
 				objs[path+"|"+"|"+name] = o
 			case *types.Var:
-				gm[name] = types.TypeString(o.Type(), q)
+				gm[name] = types.TypeString(anonType(o.Type()), q)
 				objs[path+"|var|"+name] = o
 			case *types.TypeName:
 				if o.IsAlias() {
@@ -158,7 +186,7 @@ func currentSymbols(p *Program) (*symBaseline, map[string]types.Object) {
 					var fs []symField
 					for i := 0; i < st.NumFields(); i++ {
 						f := st.Field(i)
-						fs = append(fs, symField{Name: f.Name(), Type: types.TypeString(f.Type(), q)})
+						fs = append(fs, symField{Name: f.Name(), Type: types.TypeString(anonType(f.Type()), q)})
 						objs[path+"."+name+"#"+fmt.Sprint(i)] = f
 					}
 					b.Fields[path+"."+name] = fs
